@@ -481,7 +481,8 @@ def sweep_hooks(name):
     def doo_delta(ctx, part, h):
         p = params(ctx)
         if "delta_c" in p:
-            return p["delta_c"] * p["delta_g"] ** h
+            import algo_cases
+            return algo_cases.DOOAd.tab(p)[h]      # the user-supplied bound of this case
         best = -math.inf
         for n in reachable(part.get_root()):
             if n.get_depth() == h:
@@ -823,6 +824,8 @@ def poo_hooks():
             case.fail("C10", "routing", f"round served by {len(pulls)} pull(s), reward delivered {len(recvs)} time(s)", step=t, algo=name); return
         if recvs[0][1] != served or recvs[0][2] != r:
             case.fail("C10", "routing", f"point proposed by learner {served}, reward delivered to learner {recvs[0][1]}", step=t, algo=name)
+            # the cell that was evaluated lives in the proposing learner's tree: the reward was credited to cells of another tree
+            case.fail("C04", "reward-to-other-learner", f"the evaluated point came from learner {served}'s tree, the reward was credited in learner {recvs[0][1]}'s tree", step=t, algo=name)
         objs = [e["obj"] for e in log["created"]]
         if list(a.V_algo) != objs or objs[:len(S["learners"])] != S["learners"]:
             case.fail("C10", "learners-not-append-only", "the learner list was reordered or a learner was dropped", step=t, algo=name)
@@ -1043,13 +1046,15 @@ def vroom_hooks():
     name = "VROOM"
 
     def after_init(ctx):
-        S.update(ledger={}, rounds=0)
+        S.update(ledger={}, rounds=0, params=ctx["meta"]["params"])
 
     def lcb(a, nd):
         rs = S["ledger"].get(nd._vid, [])
         if not rs:
             return -math.inf
-        return math.fsum(rs) / len(rs) - math.sqrt(math.log(4 * a.n ** 3 / a.delta) / (2 * len(rs)))
+        p = S["params"]            # the confidence parameter of the published pseudo-code, delta = 4b/(f_max sqrt(n)),
+        delta = 4 * p["b"] / (p["f_max"] * math.sqrt(p["n"]))      # from the constructor arguments, not from the object
+        return math.fsum(rs) / len(rs) - math.sqrt(math.log(4 * p["n"] ** 3 / delta) / (2 * len(rs)))
 
     def after_pull(ctx, t, pt):
         import PyXAB.algos.VROOM as VM
